@@ -479,7 +479,7 @@ fn root_of(root: &mut impl FnMut(usize) -> usize, tv_index: usize, vars: &[stora
 }
 
 fn run_shard(ctx: &ShardCtx, acc: &mut Acc) {
-    drive(ctx, "truth", ctx.tier.pick(40_000, 400_000), 500, acc, &|ch, acc| {
+    drive(ctx, "truth", ctx.tier.pick(120_000, 500_000), 500, acc, &|ch, acc| {
         let c = gen_case(ch);
         acc.sample(|| json!({ "truths": c.truths, "judgements": c.set.js, "contradicted": c.contradicted }));
         check_case(&c, acc)
